@@ -354,6 +354,76 @@ func (g *gen13) value13(t *Ty, depth int, o *opt13) *Val {
 	return v
 }
 
+
+// ---- rejected conversions interleaved with the round trips ------------------------------------------------------------------
+// A conversion's result must not depend on what the same converter / goroutine did before: pooled visitors, native state
+// machines and buffers go back to their pools after a REJECTED conversion too.  Right before a valid conversion the harness
+// therefore runs (with probability 1/2, same goroutine, same and fresh converter objects) conversions that are rejected half-way:
+// documents cut inside a known member, documents rejected inside the value of an UNKNOWN member, truncated / corrupted binary.
+// Their outcome is not recorded (rejections are C02 / C03 / C06 / C08 / C09's subject); the model side is unchanged.
+
+// malformed documents derived from a valid one
+func c13BadJSON(r *rng, J []byte) [][]byte {
+	var out [][]byte
+	cut := func(b []byte) []byte {
+		if len(b) < 2 {
+			return []byte("{")
+		}
+		return append([]byte(nil), b[:1+r.intn(len(b)-1)]...)
+	}
+	for n := 1 + r.intn(3); n > 0; n-- {
+		switch r.intn(7) {
+		case 0: // cut somewhere (inside a known member, a string, a number ...)
+			out = append(out, cut(J))
+		case 1: // rejected right where the value of an unknown member should start
+			out = append(out, []byte(`{"c13_unknown_member":}`))
+		case 2: // truncated inside the value of an unknown member
+			out = append(out, append([]byte(`{"c13_unknown_member":`), cut(J)...))
+		case 3: // known members first, then an unknown member whose value is cut
+			if len(J) > 2 && J[0] == '{' && J[len(J)-1] == '}' {
+				d := append([]byte(nil), J[:len(J)-1]...)
+				if len(J) > 2 {
+					d = append(d, ',')
+				}
+				out = append(out, append(d, []byte(`"c13_unknown_member":[1,{"x":`)...))
+			} else {
+				out = append(out, append([]byte(`[`), cut(J)...))
+			}
+		case 4: // unknown member holding a string that never ends
+			out = append(out, []byte(`{"c13_unknown_member":"abc`))
+		case 5: // wrong bytes after an unknown key
+			out = append(out, []byte(`{"c13_unknown_member" 1}`))
+		default: // an unknown member with a complete value, then garbage
+			out = append(out, append(append([]byte(`{"c13_unknown_member":`), J...), []byte(`,,`)...))
+		}
+	}
+	return out
+}
+
+// malformed binary derived from a valid message
+func c13BadBin(r *rng, b []byte) [][]byte {
+	var out [][]byte
+	for n := 1 + r.intn(2); n > 0; n-- {
+		if len(b) < 2 {
+			out = append(out, []byte{0x0f})
+			continue
+		}
+		switch r.intn(3) {
+		case 0:
+			out = append(out, append([]byte(nil), b[:1+r.intn(len(b)-1)]...))
+		case 1:
+			c := append([]byte(nil), b...)
+			c[r.intn(len(c))] ^= byte(1 + r.intn(255))
+			out = append(out, c[:1+r.intn(len(c))])
+		default:
+			c := append([]byte(nil), b...)
+			c[0] = 0x7f
+			out = append(out, c)
+		}
+	}
+	return out
+}
+
 // error classes: 0 nil, 1 error, 2 panic, 3 memory fault inside native code
 func class13(ok bool, msg string, err error) int {
 	if !ok {
@@ -384,6 +454,30 @@ func run13(g *gen13, desc *thrift.TypeDescriptor, dfs []string, b []byte, o1 int
 	var J, b2, J2 []byte
 	var e1, e2, e3 error
 	ec1, ec2, ec3 := 0, 0, 0
+	poison := g.r.fork()
+	poisonT2J := func(src []byte) {
+		if poison.chance(50) {
+			for _, bad := range c13BadBin(poison, src) {
+				noPanic(func() { cv1.Do(ctx, desc, bad) })
+				if poison.chance(30) {
+					cvx := t2j.NewBinaryConv(conv.Options{})
+					noPanic(func() { cvx.Do(ctx, desc, bad) })
+				}
+			}
+		}
+	}
+	poisonJ2T := func(doc []byte) {
+		if poison.chance(50) {
+			for _, bad := range c13BadJSON(poison, doc) {
+				noPanic(func() { cv2.Do(ctx, desc, bad) })
+				if poison.chance(30) {
+					cvx := j2t.NewBinaryConv(conv.Options{})
+					noPanic(func() { cvx.Do(ctx, desc, bad) })
+				}
+			}
+		}
+	}
+	poisonT2J(b)
 	ok, msg := noPanic(func() { J, e1 = cv1.Do(ctx, desc, append([]byte(nil), b...)) })
 	ec1 = class13(ok, msg, e1)
 	if ec1 != 0 {
@@ -391,6 +485,7 @@ func run13(g *gen13, desc *thrift.TypeDescriptor, dfs []string, b []byte, o1 int
 	}
 	Jkeep := append([]byte(nil), J...)
 	if ec1 == 0 {
+		poisonJ2T(J)
 		ok, msg = noPanic(func() { b2, e2 = cv2.Do(ctx, desc, append([]byte(nil), J...)) })
 		ec2 = class13(ok, msg, e2)
 		if ec2 != 0 {
@@ -401,6 +496,7 @@ func run13(g *gen13, desc *thrift.TypeDescriptor, dfs []string, b []byte, o1 int
 		}
 		b2keep := append([]byte(nil), b2...)
 		if ec2 == 0 {
+			poisonT2J(b2)
 			ok, msg = noPanic(func() { J2, e3 = cv1.Do(ctx, desc, append([]byte(nil), b2...)) })
 			ec3 = class13(ok, msg, e3)
 			if ec3 != 0 {
